@@ -160,16 +160,32 @@ impl Property for C17 {
     }
     fn strategy(&self, _tier: Tier) -> BoxedStrategy<C17Case> {
         (proptest::collection::vec(any::<u16>(), 160), proptest::collection::vec((any::<u16>(), any::<u16>(), any::<u16>(), proptest::collection::vec(0i32..40, 10)), 1..=16), any::<bool>())
-            .prop_map(|(us, raw_ops, f32)| {
-                let l = 1 + pick(us[6], if us[7] % 3 == 0 { 10 } else { 4 });
+            .prop_map(|(us, raw_ops, f32)| c17_from_raw(&us, raw_ops, f32))
+            .boxed()
+    }
+    fn check(&self, case: &C17Case) -> Check {
+        if case.f32 {
+            run::<f32>(case)
+        } else {
+            run::<f64>(case)
+        }
+    }
+}
+
+/// the pure construction behind the strategy (also used by the fuzz target c17_misuse);
+/// `us` needs at least 160 entries
+pub fn c17_from_raw(us: &[u16], raw_ops: Vec<(u16, u16, u16, Vec<i32>)>, f32: bool) -> C17Case {
+
+                // 1 of 64 models is large: 60..139 parameters
+    let l = if us[7] % 64 == 1 { 60 + pick(us[6], 80) } else { 1 + pick(us[6], if us[7] % 3 == 0 { 10 } else { 4 }) };
                 let n = 1 + pick(us[0], 6);
-                let prog = valid_program(&us, l, 1 + pick(us[8], 3), 1 + pick(us[9], 10), n);
+                let prog = valid_program(us, l, 1 + pick(us[8], 3), 1 + pick(us[9], 10), n);
                 // closures = function / deriv / invariant calls
                 let closures: Vec<usize> = prog.calls.iter().enumerate().filter(|(_, c)| matches!(c, Call::Function { .. } | Call::Deriv { .. } | Call::Invariant { .. })).map(|(i, _)| i).collect();
                 let ops = raw_ops
                     .into_iter()
                     .map(|(sel, a, b, v)| match pick(sel, 16) {
-                        0..=2 => MOp::SetRight(v[..l].to_vec()),
+                        0..=2 => MOp::SetRight((0..l).map(|i| v[i % v.len()] + (i / 10) as i32).collect()),
                         3 | 4 => {
                             let cands = [0, l + 1, l - 1, 3 * l];
                             let mut len = cands[pick(a, 4)];
@@ -193,14 +209,4 @@ impl Property for C17 {
                     })
                     .collect();
                 C17Case { prog, ops, f32 }
-            })
-            .boxed()
-    }
-    fn check(&self, case: &C17Case) -> Check {
-        if case.f32 {
-            run::<f32>(case)
-        } else {
-            run::<f64>(case)
-        }
-    }
-}
+            }
